@@ -569,3 +569,53 @@ def run(index, rep, tier):
             rep.check(ok, "R13.15", blk.qualname, "`self.%s` carried over from the previous character block" % a, fn_where(blk), "_parse_characters_data_block resets self.%s" % a,
                       "NexusReader._parse_characters_data_block starts reading a block without giving `self.%s` its default again, although the FORMAT / DIMENSIONS statement of an earlier block may have set it: a non-interleaved matrix that follows an interleaved one is read as interleaved (TooManyTaxaError), a block without its own SYMBOLS / GAP / MISSING inherits the previous block's - the matrix in the data set is not the matrix read on its own" % a)
         rep.floor("R13.15", "per-block reader variables", 5, len(per_block))
+
+    # ---- R13.16 a keyword is compared in one case
+    with rep.section("R13.16"):
+        rep.rule("R13.16", "a block ends on END in any case: NEXUS keywords are case-insensitive and the reader compares them in upper case - in a loop whose own test compares a local with 'END' / 'ENDBLOCK', the body assigns that local from the upper-casing token sources (next_token_ucase, require_next_token_ucase, cast_current_token_to_ucase) or upper-cases it itself; fed from next_token() alone, a block closed with `end;` is not recognised as closed and whatever follows is swallowed - by the routes that SKIP that block only, so the routes stop agreeing")
+        UC = ("next_token_ucase", "require_next_token_ucase", "cast_current_token_to_ucase", "upper")
+        RAW = ("next_token", "require_next_token")
+        n16 = 0
+        for f in index.functions_in_module("dendropy.dataio.nexusreader"):
+            for loop in [l for l in ast.walk(f.node) if isinstance(l, ast.While)]:
+                # the loop's own test decides on END / ENDBLOCK: what the body assigns to that variable is what ends the block
+                kwvars = set()
+                for x in ast.walk(loop.test):
+                    if isinstance(x, ast.Compare) and len(x.ops) == 1 and isinstance(x.left, ast.Name) and isinstance(x.ops[0], (ast.Eq, ast.NotEq, ast.In, ast.NotIn)):
+                        consts = [c for c in ast.walk(x.comparators[0]) if isinstance(c, ast.Constant) and isinstance(c.value, str)]
+                        if consts and all(c.value in ("END", "ENDBLOCK") for c in consts):
+                            kwvars.add(x.left.id)
+                if not kwvars:
+                    continue
+                folded_in_body = any(isinstance(c, ast.Call) and isinstance(c.func, ast.Attribute) and c.func.attr == "upper" and isinstance(c.func.value, ast.Name) and c.func.value.id in kwvars for st in loop.body for c in ast.walk(st))
+                for st in loop.body:
+                    for a in ast.walk(st):
+                        if isinstance(a, ast.Assign) and len(a.targets) == 1 and isinstance(a.targets[0], ast.Name) and a.targets[0].id in kwvars and isinstance(a.value, ast.Call):
+                            cn = call_name(a.value)
+                            if cn in UC or cn in RAW:
+                                n16 += 1
+                                rep.check(cn in UC or folded_in_body, "R13.16", f.qualname, "block end tested on a case-preserving token", fn_where(f, a), "%s: `%s` upper-cases what the loop compares with END" % (f.name, norm_stmt(a)[:50]),
+                                          "%s assigns `%s` to the variable its loop compares with 'END' / 'ENDBLOCK' and never upper-cases it: `end;` / `End;` no longer ends the block, so a block that is being skipped swallows what follows - DnaCharacterMatrix.get on a lower-case document with a TREES block before the CHARACTERS block skips past the matrix ('No character data in data source') while DataSet.get still finds it" % (f.qualname, norm_stmt(a)[:60]))
+        rep.floor("R13.16", "assignments to block-end variables in END-terminated loops", 4, n16)
+
+    # ---- R13.17 what was said before a block does not stick to the next one
+    with rep.section("R13.17"):
+        rep.rule("R13.17", "what was said before a block does not stick to the next one: in NexusReader._parse_nexus_stream every path from the start of a pass of the block loop to the dispatch of a block parser empties the tokenizer's captured-comment buffer (process_and_clear_comments_for_item / clear_captured_comments / pull_captured_comments) - whatever the annotations target is. The DataSet routes have a target, the TreeList routes have None: clearing only when there is a target leaves the comments between two blocks in the buffer on the tree-list routes, where they end up on the tree list of the next TREES block")
+        pns = index.function("dendropy.dataio.nexusreader.NexusReader._parse_nexus_stream")
+        g17 = cfg_of(pns)
+        disp = [nd for nd in g17.nodes if any((call_name(c) or "").startswith("_parse_") and (call_name(c) or "").endswith("_block") for c in node_calls(nd))]
+        outer = [l for l in walk_no_nested(pns.node) if isinstance(l, ast.While)]
+        if not disp or not outer:
+            raise AnalysisError("R13.17: block loop / block dispatch in _parse_nexus_stream not recognised")
+        heads = [nd for nd in g17.nodes if nd.stmt is outer[-1] and nd.kind in ("test", "while", "join", "loop")]
+        if not heads:
+            heads = [nd for nd in g17.nodes if nd.stmt is outer[-1]]
+        CLR = ("process_and_clear_comments_for_item", "clear_captured_comments", "pull_captured_comments")
+        did = {id(d) for d in disp}
+        ok17, wit = True, None
+        for h in heads[:1]:
+            w = g17.can_reach(h, lambda nd: id(nd) in did, avoid=lambda nd: any(call_name(c) in CLR for c in node_calls(nd)), follow_exc=False)
+            if w is not None:
+                ok17, wit = False, w
+        rep.check(ok17, "R13.17", pns.qualname, "a block is dispatched with the comment buffer uncleared", fn_where(pns, wit.stmt if wit is not None else None), "_parse_nexus_stream clears the captured comments before every block (%d dispatch sites)" % len(disp),
+                  "NexusReader._parse_nexus_stream can reach `%s` on a path that never empties the tokenizer's captured comments: on the routes without a global annotations target (TreeList.get / TreeList.read) a comment or `[&...]` metadata comment written between two blocks stays in the buffer and is attached to the tree list of the next TREES block, while DataSet.get attaches it to the data set - the routes deliver different comments and annotations" % (norm_stmt(wit.stmt)[:50] if wit is not None and wit.stmt is not None else ""))
